@@ -137,7 +137,24 @@ ADD5 = {
  "C08": _RT + " RAFT-DECISION - a protocol table over raftkvs.tla itself (quorum, vote granting, term adoption, log-consistency check, truncate / append, commit rule, apply loop), compared by truth table, so that an edit made consistently in the specification and the Go is still reported.",
  "C13": " Round 5: value and snapshot absorb the same received state (CRDT-SNAPSHOT snapshot-merges-what-the-value-merges).",
 }
-for d in (ADD, ADD3, ADD4, ADD5):
+# rules added in the seventh round
+_CTX = " CTX-ROLLBACK: every field of MPCalContext written by the section-time API (ArchetypeInterface methods and their callees in the driver) is reset by abort()/commit(), scoped to the call by a deferred clear, or a named insert-only registry."
+ADD7 = {
+ "C01": " Round 7:" + _CTX,
+ "C02": " Round 7:" + _CTX + " HASHMAP-KEYS (map resources commit / abort the elements their key list names).",
+ "C03": " Round 7: the equality rules of the value kinds (VAL-DECISION, DATA-ENCAPSULATED, EQ-NILSAFE) are decided under this property too; MakeFunctionSet is always built from the domain.",
+ "C04": " Round 7:" + _CTX + " SNAPSHOT-ONCE and LOCAL-RES (the frame, .pc and the procedure variables are local cells that TailCall writes several times in one section: the rollback target is taken once).",
+ "C05": " Round 7: GOB-FIELDS (a hand-written GobEncode names every field, or the field is a memo one function fills lazily), GOB-LOSSLESS (what is written per element is the element or a lossless image of it), RPC-REPLY-FRESH (a fresh reply object per RPC: gob leaves absent fields alone).",
+ "C06": " Round 7: HASHMAP-KEYS / HASHMAP-EQ (the mailboxes of a node are elements of an IncMap, committed through the key list); ADDR-PURE (see C19).",
+ "C10": " Round 7: FC-DELEGATE - every path of ArchetypeInterface.NextFairnessCounter returns what the configured counter answers for the same (id, ceiling).",
+ "C11": " Round 7: RPC-REPLY-FRESH; TPC-RETRY no-replica-skipped (abort / commit are broadcast to every replica, not to the ones that acknowledged).",
+ "C12": " Round 7: GOB-FIELDS, GOB-LOSSLESS (see C05).",
+ "C13": " Round 7: GOB-FIELDS, GOB-LOSSLESS (see C05): a timestamp that loses precision on the wire changes who wins.",
+ "C17": " Round 7: FD-HANDSHAKE (Close hands the failure detector's loop its stop token exactly when the loop announced itself; test and action within one hold of the write lock); MB-CONN-DROP (a connection closed after a failed exchange is forgotten, else Close closes it again and Run's clean-up reports an error); CS-ORDER.",
+ "C18": " Round 7: EV-NAMES (a handle is labelled with the name it was asked for on every path that hands it out); CLK-COMMITSTAMP on every path of Commit; CS-ORDER, ATTEMPT-ONCE.",
+ "C19": " Round 7: ADDR-PURE - no function that computes an address handed to a resources constructor in the systems' bootstrap code touches a package-level variable the program changes at run time.",
+}
+for d in (ADD, ADD3, ADD4, ADD5, ADD7):
     for k, v in d.items():
         t = CLAIMED[k]
         CLAIMED[k] = (t[0], t[1] + v, t[2], t[3])
